@@ -61,7 +61,7 @@ Definition head_ok (o : op) (evs : list ev) : bool :=
   match o, evs with
   | Do _, EDo :: _ => true
   | Resp id k, EResp id' k' :: _ => (id =? id') && kind_eqb k k'
-  | (RespNotify | RespNoSender _ | Advance _ | SetNext _), [EIdle] => true
+  | (RespNotify | RespNoSender _ | Advance _ | SetNext _ | Via _ | DirectNotify _), [EIdle] => true
   | (Tick _ | TickReal _), (ETick _ | EIdle) :: _ => true
   | _, _ => false
   end.
